@@ -90,6 +90,16 @@ exception Bad
 
 let parse_ops s = String.split_on_char ';' s
 
+(* how a Clone is taken (harness/cmd/streeheighttrace/round7.go): "" plainly, or from inside a
+   traversal callback of the tree: i<j> b<j> n<j> (j >= 0), f<k> g<k>; decimal, canonical *)
+let valid_how (s : string) : bool =
+  s = "" ||
+  (String.contains "ibnfg" s.[0] &&
+   (let d = String.sub s 1 (String.length s - 1) in
+    match int_of_string_opt d with
+    | Some v -> string_of_int v = d && abs v <= 1 lsl 40 && (v >= 0 || s.[0] = 'f' || s.[0] = 'g')
+    | None -> false))
+
 let eval_history beta ops =
   let b = zi beta in
   (* state: all trees ever made; cur: index of the tree under test *)
@@ -122,7 +132,9 @@ let eval_history beta ops =
         let (s', _) = step !st (M.OClear (ci ())) in
         st := s'; items := lh () :: !items
       | 'C' ->
-        if arg <> "" then raise Bad;
+        (* C<how>: the Clone is taken inside a traversal callback of the tree, which only reads it:
+           for the model a Clone taken just before the traversal *)
+        if not (valid_how arg) then raise Bad;
         let (s', _) = step !st (M.OClone (ci ())) in
         let old = ci () in
         st := s'; cur := List.length s' - 1;
@@ -400,6 +412,7 @@ let parse_macro (m : string) : macro =
   | 'N', [""] -> MNew
   | 'K', [""; ks] -> MBulk (keys_of_ks ks)
   | 'C', [t] -> MClone (tree t)
+  | 'C', [t; how] when how <> "" && valid_how how -> MClone (tree t)   (* read-only callback: a plain Clone *)
   | 'X', [t] -> MClear (tree t)
   | ('A' | 'P' | 'D'), [t; ks] -> MMut (m.[0], tree t, keys_of_ks ks)
   | 'G', [t; ks] -> MGet (tree t, keys_of_ks ks)
